@@ -296,6 +296,15 @@ def r6_loader_derivation(ctx, rid):
         ctx.violation(rid, f, f.node, "relative base reference is not completed against the referring template's path", label="base path completion")
 
 
+def r7_dumper_is_read_only(ctx, rid):
+    """The dumper must not write into the templates it serialises (shared operator defaults would receive one node's
+    overrides and every other node would be dumped with them).  Same effect analysis as C14-R1, restricted to the dump path."""
+    from .c14 import check_entry
+    for rel, q in ((FD, "from_circuit"), (FD, "from_node"), (FD, "from_operator"), (FD, "from_edge"), (FD, "add_to_dict"),
+                   ("pyrates/frontend/fileio/yaml.py", "dump_to_yaml"), (FT, "to_yaml"), (FC, "CircuitTemplate.to_yaml")):
+        check_entry(ctx, rid, ctx.repo.get_func(rel, q), None)
+
+
 RULES = [
     ("C15-R1", r1_left_context, 2),
     ("C15-R2", r2_dumper_vs_constructor, 8),
@@ -303,4 +312,5 @@ RULES = [
     ("C15-R4", r4_edits_use_boundary_aware_helper, 7),
     ("C15-R5", r5_dump_key_is_free, 1),
     ("C15-R6", r6_loader_derivation, 3),
+    ("C15-R7", r7_dumper_is_read_only, 8),
 ]
